@@ -25,7 +25,7 @@ RULE = (
     "plug-in has hidden caches). Oracle: every returned value equals the value a fresh stack returns when asked only "
     "that request at that point; evaluator log: per visit of a point at most one function and one gradient evaluation, "
     "no gradient evaluation for gradient-free/population methods, no combined evaluation with split_evaluations. "
-    "Every sequence is non-trivial."
+    "Masked layer: V=2 with the second variable fixed; the fixed value changes by a second start() of the same optimizer (same free value, other fixed value) or at every call-back (as a nested optimization does): every answer for which an evaluation was made equals the fresh-stack value at the completed point, and the first request after a restart is never served without an evaluation. Every sequence is non-trivial."
 )
 ASSUMPTIONS = [
     "quadratic ensemble + shared deterministic design sampler: the ensemble value and gradient are pure functions of x",
@@ -152,6 +152,129 @@ class Stack:
                 has_f = bool(np.any(call.perturbations < 0))
                 out.append((b"", has_f, True))
         return out
+
+
+# ---------------------------------------------------------------- masked variables: restarts and nested optimization
+
+FREE_POINTS = {"A": 0.5, "B": 0.5 + 2e-3 * 1.5, "C": -1.0}
+FIXED_VALUES = [-0.25, 1.5, 2.25, 3.0, 3.75, 4.5, 5.25, 6.0, 6.75]
+
+
+class MaskedStack:
+    """V=2 with the second variable fixed; slsqp with a non-linear constraint. The fixed variable changes either by a
+    second start() of the same optimizer, or - as a nested optimization would do it - at every call-back."""
+
+    def __init__(self, spec: bool, split: bool, y0: float, moving: bool) -> None:
+        from types import SimpleNamespace
+
+        from ropt.ensemble_evaluator import EnsembleEvaluator
+        from ropt.optimization import EnsembleOptimizer
+
+        config = build_config("slsqp", "nl", spec, split, False)
+        config["variables"] = {"initial_values": [FREE_POINTS["A"], y0], "mask": [True, False], "lower_bounds": [-5.0, -9.0], "upper_bounds": [5.0, 9.0]}
+        config["samplers"] = [{"method": "verif/design", "options": {"design": [[1.0], [-0.5], [0.25]]}, "shared": True}]
+        self.config = validate(config)
+        self.manager, _ = make_manager()
+        self.y_now = y0
+        self.y_at_call: list[float] = []
+        self.evaluator = TableEvaluator(ensemble_fn(2), 1, 1, hook=lambda index, evaluator: self.y_at_call.append(self.y_now))
+        self.ens = EnsembleEvaluator(self.config, None, self.evaluator, self.manager)
+        self.nested_calls = 0
+        stack = self
+
+        def nested(variables: np.ndarray) -> Any:
+            stack.nested_calls += 1
+            stack.y_now = FIXED_VALUES[min(stack.nested_calls, len(FIXED_VALUES) - 1)]
+            moved = np.array(variables, dtype=np.float64, copy=True)
+            moved[1] = stack.y_now
+            return SimpleNamespace(evaluations=SimpleNamespace(variables=moved)), False
+
+        self.opt = EnsembleOptimizer(self.config, self.ens, self.manager, nested_optimizer=nested if moving else None)
+        self.answers: list[Any] = []
+        self.calls_before: list[int] = []
+        self.error: str | None = None
+
+    def run(self, script: list[Any], start: list[float] | None = None) -> "MaskedStack":
+        buffer = np.empty(1)
+
+        def do(request: Any, fun: Any, jac: Any, constraints: Any) -> Any:
+            buffer[0] = FREE_POINTS[request[-1]]
+            kind = request[0]
+            if kind == "f":
+                return np.array(fun(buffer), copy=True)
+            if kind == "g":
+                return np.array(jac(buffer), copy=True)
+            handed = constraints[request[1] % len(constraints)]
+            return np.array(handed["fun" if kind == "c" else "jac"](buffer), copy=True)
+
+        def driver(*, fun: Any, x0: Any, jac: Any = None, constraints: Any = (), **kwargs: Any) -> None:
+            for request in script:
+                self.calls_before.append(len(self.evaluator.calls))
+                self.answers.append(do(request, fun, jac, constraints))
+
+        with scipy_entry_points(driver):
+            try:
+                if start is not None:
+                    self.y_now = start[1]
+                self.opt.start(np.array(self.config.variables.initial_values if start is None else start))
+            except Exception as exc:  # noqa: BLE001
+                self.error = f"{type(exc).__name__}: {str(exc)[:150]}"
+        return self
+
+
+_FRESH_MASKED: dict[Any, Any] = {}
+
+
+def fresh_masked(request: Any, y: float) -> Any:
+    key = (repr(request), y)
+    if key not in _FRESH_MASKED:
+        stack = MaskedStack(False, False, y, False).run([request])
+        _FRESH_MASKED[key] = stack.answers[0] if stack.error is None and stack.answers else ("error", stack.error)
+    return _FRESH_MASKED[key]
+
+
+def judge_masked(case: dict[str, Any]) -> Judgement:
+    j = Judgement()
+    spec, split, mode = case["spec"], case["split"], case["mode"]
+    scripts = [[tuple(r) for r in part] for part in case["scripts"]]
+    stack = MaskedStack(spec, split, FIXED_VALUES[0], mode == "nested")
+    runs = []
+    stack.run(scripts[0])
+    runs.append((0, len(stack.answers)))
+    if mode == "restart" and stack.error is None:
+        # second start() of the SAME optimizer: same free value as the last request, another value of the fixed variable
+        stack.run(scripts[1], start=[FREE_POINTS[scripts[0][-1][-1]], FIXED_VALUES[1]])
+        runs.append((runs[0][1], len(stack.answers)))
+    j.transitions = sum(len(part) for part in scripts)
+    j.outcome = f"masked:{mode}:spec={spec}:split={split}"
+    if stack.error is not None:
+        j.fail(f"masked:request-raised:{stack.error.split(':')[0]}", error=stack.error, scripts=scripts)
+        return j
+    flat = [r for part in scripts[: len(runs)] for r in part]
+    bounds = stack.calls_before + [len(stack.evaluator.calls)]
+    for index, (request, answer) in enumerate(zip(flat, stack.answers)):
+        made = bounds[index + 1] - bounds[index]
+        first_of_second_run = len(runs) > 1 and index == runs[1][0]
+        if made == 0:
+            if first_of_second_run:
+                j.fail("masked:first-request-after-restart-served-without-evaluation", request=request, scripts=scripts)
+            continue  # served from what was computed earlier in this run: judged by the unmasked layers
+        # the evaluation that produced the requested kind of quantity, and the fixed value in force when it was made
+        wants_gradient = request[0] in ("g", "j")
+        producing = [k for k in range(bounds[index], bounds[index + 1])
+                     if (stack.evaluator.calls[k].perturbations is not None and np.any(stack.evaluator.calls[k].perturbations >= 0)) == wants_gradient
+                     or (not wants_gradient and stack.evaluator.calls[k].perturbations is not None and np.any(stack.evaluator.calls[k].perturbations < 0))]
+        if not producing:
+            continue  # the quantity itself was served from an earlier evaluation of this run
+        y = stack.y_at_call[producing[-1] if wants_gradient else producing[0]]
+        expected = fresh_masked(request, y)
+        if isinstance(expected, tuple) and expected and expected[0] == "error":
+            j.fail("masked:fresh-stack-raised", request=request, error=expected[1])
+            continue
+        if not close(answer, expected, 1e-12):
+            kind = {"f": "objective", "g": "gradient", "c": "constraint", "j": "jacobian"}[request[0]]
+            j.fail(f"masked:{mode}:stale-or-wrong-{kind}", index=index, request=request, fixed_value=y, observed=answer, expected=expected, scripts=scripts)
+    return j
 
 
 _FRESH: dict[Any, Any] = {}
@@ -282,6 +405,12 @@ def shards(tier: str, seed: int) -> list[dict[str, Any]]:
         for split in (False, True):
             for first in range(len(alphabet)):
                 out.append({"method": "slsqp", "conset": "nl", "spec": spec, "split": split, "depth": depth - 1, "first": first, "failing": True})
+    # a fixed variable that changes between requests: by a second start() of the same optimizer, or at every call-back
+    # (nested optimization)
+    for spec in (False, True):
+        for split in (False, True):
+            for mode in ("restart", "nested"):
+                out.append({"kind": "masked", "mode": mode, "spec": spec, "split": split, "depth": 2 if tier == "quick" else 3})
     for spec in (False, True):
         for split in (False, True):
             for first in range(len(DE_SCALAR)):
@@ -295,6 +424,16 @@ def shards(tier: str, seed: int) -> list[dict[str, Any]]:
 
 def run_shard(shard: dict[str, Any]) -> core.ShardResult:
     rec = Recorder(shard)
+    if shard.get("kind") == "masked":
+        alphabet = [r for r in request_alphabet("slsqp", "nl") if r[-1] in ("A", "C") and (len(r) == 2 or r[1] == 0)]
+        sequences = [list(seq) for n in range(1, shard["depth"] + 1) for seq in itertools.product(alphabet, repeat=n)]
+        second = [list(seq) for n in range(1, 3) for seq in itertools.product(alphabet, repeat=n)] if shard["mode"] == "restart" else [[]]
+        for seq in sequences:
+            for seq2 in (second if len(seq) <= 2 else second[: len(alphabet)]):
+                case = {"kind": "masked", "mode": shard["mode"], "spec": shard["spec"], "split": shard["split"],
+                        "scripts": [[list(r) for r in seq], [list(r) for r in seq2]]}
+                rec.add(("masked", shard["mode"], shard["spec"], shard["split"], tuple(seq), tuple(seq2)), case, judge_masked(case))
+        return rec.finish()
     method, conset = shard["method"], shard["conset"]
     parallel = shard.get("parallel", False)
     if method == "differential_evolution":
@@ -314,6 +453,8 @@ def run_shard(shard: dict[str, Any]) -> core.ShardResult:
 
 
 def run_case(case: dict[str, Any]) -> Judgement:
+    if case.get("kind") == "masked":
+        return judge_masked(case)
     return judge(case)
 
 
